@@ -39,7 +39,12 @@ RULE = ('One offender transport sends generated sequences of hostile frames '
         'handler invocation carries an offender sid in the documented sid '
         "position; a frame the implementation's own decoder rejects, or an "
         'event whose payload is not a non-empty array (also one completed '
-        'by its attachments), reaches no handler; object-graph growth and tracemalloc peak bounded by the '
+        'by its attachments), or a BINARY_EVENT / BINARY_ACK header without '
+        'its attachment count (judged from the frame, not by the decoder), '
+        'reaches no handler; servers with a fixed namespace list or serving '
+        'any namespace; msgpack CONNECTs whose namespace is not a string; '
+        "finally every bystander's transport ends and its disconnect "
+        'handlers run once each; object-graph growth and tracemalloc peak bounded by the '
         'bytes received (peak < 2 MiB + 400 B per byte of frame: a CONNECT or a '
         'first use of a code path legitimately costs a few hundred KiB, an '
         'allocation proportional to a declared count of 10**7 or more does '
